@@ -5,6 +5,7 @@ examined) and by GNU as in the same syntax mode; each candidate must be read by 
 disassembler as exactly one instruction of its full length whose text equals the reference
 disassembly of GNU as's encoding; a value GNU as refuses or shortens must yield no candidate.
 """
+import os
 import re
 from vf import common, gnuref, x86ref, asmgen
 
@@ -186,13 +187,53 @@ NPARTS = 96
 
 
 def shards(tier, seed):
-    return [('intel', p) for p in range(NPARTS)] + [('att-direct', 0)]
+    return [('intel', p) for p in range(NPARTS)] + [('att-direct', 0)] + [('optimised', p) for p in range(4)]
+
+
+def run_optimised(sh, batch, syntax):
+    """Interpreter-flag differential: the same lines through a child started with -O (assert statements and __debug__ blocks are
+    compiled away there) must give exactly the candidates the normal interpreter gives: a range check is not allowed to live in
+    an assert."""
+    import subprocess, json, sys
+    from miasmx.arch.ia32_arch import x86mnemo
+    f = x86mnemo.asm if syntax == 'intel' else x86mnemo.asm_att
+    lines = [b[0] for b in batch]
+    env = dict(os.environ, PYTHONPATH=common.REPO, PYTHONDONTWRITEBYTECODE='1', PYTHONHASHSEED='0')
+    try:
+        r = subprocess.run([sys.executable, '-O', os.path.join(common.VERIF, 'vf', 'optchild.py')], input=json.dumps({'syntax': syntax, 'lines': lines}).encode(),
+                           env=env, stdout=subprocess.PIPE, stderr=subprocess.PIPE, timeout=1200)
+        rep = json.loads(r.stdout.decode())
+    except Exception as e:
+        sh.counters['optimised_child_failed'] += 1
+        return
+    if rep.get('optimize', 0) < 1 or len(rep['results']) != len(lines):
+        sh.counters['optimised_child_failed'] += 1
+        return
+    for (line, mn, shape, v), got in zip(batch, rep['results']):
+        try:
+            c = f(line)
+            here = None if c is None else [bytes(b).hex() for b in c]
+        except Exception as e:
+            here = 'raises:' + type(e).__name__
+        sh.case(('opt', syntax, line), nontrivial=isinstance(here, list) and len(here) > 0, cls='optimised/%s/%s' % (syntax, shape))
+        if here != got:
+            kind = 'accepted-only-under-O' if isinstance(got, list) and got and not (isinstance(here, list) and here) else 'differs'
+            sh.violation('interpreter-flag-O/%s/%s/%s/%s' % (syntax, mn, shape, kind), '%r: normal interpreter -> %s, python -O -> %s' % (line, str(here)[:120], str(got)[:120]),
+                         {'line': line, 'mnemonic': mn, 'shape': shape, 'imm': v, 'syntax': syntax, 'optimised': True})
 
 
 def run_shard(shard, tier, seed):
     sh = common.Shard()
     if shard[0] == 'att-direct':
         run_batch(sh, att_direct_lines(), 'att')
+        return sh
+    if shard[0] == 'optimised':
+        if shard[1] == 0:
+            run_optimised(sh, att_direct_lines(), 'att')
+        else:
+            # every third part of the Intel corpus (all mnemonics over the parts; boundary immediates are in every part)
+            for p_ in range(shard[1] - 1, NPARTS, 3 * 3):
+                run_optimised(sh, list(asmgen.lines('quick', seed, p_, NPARTS)), 'intel')
         return sh
     batch = list(asmgen.lines(tier, seed, shard[1], NPARTS))
     run_batch(sh, batch, 'intel')
@@ -216,5 +257,8 @@ def run_shard(shard, tier, seed):
 
 def replay(w):
     sh = common.Shard()
+    if w.get('optimised'):
+        run_optimised(sh, [(w['line'], w['mnemonic'], w['shape'], w['imm'])], w['syntax'])
+        return [(v['key'], v['detail']) for v in sh.violations]
     run_batch(sh, [(w['line'], w['mnemonic'], w['shape'], w['imm'])], w['syntax'])
     return [(v['key'], v['detail']) for v in sh.violations]
